@@ -40,6 +40,7 @@ func c11(c *Ctx) {
 	// a user Restore's snapshot sits above the whole log (aborted in-flight
 	// entries included), under the current term (round-7 seed C11-N)
 	c20CreateStamp(c, "R8/C20.R4")
+	c15R4(c, "R9/C15.R4")
 }
 
 func sinkTracks(c *Ctx, createPrefix string) []engine.Track {
